@@ -55,6 +55,7 @@ func (e *Engine) runCall(fn *ssa.Function, args []Value) (res []pathResult, errM
 	e.curPhaseB = false
 	e.curFramed = false
 	e.paths = 0
+	e.steps = 0
 	fr := &Frame{fn: fn, regs: map[ssa.Value]Value{}, loops: map[*ssa.BasicBlock]*loopEntry{}, block: fn.Blocks[0]}
 	s.frames = []*Frame{fr}
 	if len(args) != len(fn.Params) {
